@@ -110,7 +110,7 @@ func runJudge(c *core.Ctx, lines []*Line) (map[string]any, error) {
 		switch {
 		case e["ev"] == "prop" && e["o"] == "Array.prototype" && e["n"] == "push":
 			cp(func(m map[string]any) { m["obs"].(map[string]any)["attrs"] = []any{"T", "T", "T"}; m["e"] = true }) // enumerable method
-			cp(func(m map[string]any) { m["n"] = "addition"; m["e"] = true })                                        // enumerable addition to a prototype
+			cp(func(m map[string]any) { m["n"] = "addition"; m["e"] = true })                                       // enumerable addition to a prototype
 		case e["ev"] == "prop" && e["o"] == "Math.trunc" && e["n"] == "length":
 			cp(func(m map[string]any) { m["obs"].(map[string]any)["attrs"] = []any{"T", "F", "T"} }) // writable length of an unlisted function
 		case e["ev"] == "obj" && e["id"] == "Math.trunc":
